@@ -12,7 +12,7 @@ RULE = ('Hypothesis draws configuration (handler dispatch mode, limits, transpor
         'whose POST bodies and WebSocket frames are built from every packet type 0..9, every '
         'payload kind (tagged text, JSON, binary, JSON-look-alike text), CLOSE/invalid packets at '
         'every position, 15..19-packet bodies, undecodable bodies, wrong declared lengths, on '
-        'polling, WebSocket and mid-upgrade sessions, both servers. Oracle: model of the statement '
+        'polling (plain, JSONP with d= bodies, compressed answers), WebSocket and mid-upgrade sessions, both servers, handlers that may take virtual time. Oracle: model of the statement '
         '(MESSAGE => exactly one event with the reference-decoded payload; CLOSE ends the session; '
         'other types: 400 + session end on polling, ignored on WebSocket; refused bodies => no '
         'event; wire order with synchronous handlers). Non-trivial: a body with >=2 packets '
